@@ -157,15 +157,20 @@ def expected_snapshot(t, d, tree):
 
 # ------------------------------------------------------------------------------------------- repo
 class Repo:
-    def __init__(self, root, logpath, cache_dir=None, compress=False, config_extra=""):
+    def __init__(self, root, logpath, cache_dir=None, compress=False, config_extra="", cmdcache=False):
         self.root = root
         self.log = logpath
         self.home = root + ".home"
         self.cache_dir = cache_dir
         os.makedirs(os.path.join(root, PKG), exist_ok=True)
         os.makedirs(self.home, exist_ok=True)
-        cfg = "[build]\npath = /usr/local/bin:/usr/bin:/bin\n[cache]\ndir = %s\n" % (cache_dir or "")
-        if cache_dir and compress:
+        cfg = "[build]\npath = /usr/local/bin:/usr/bin:/bin\n[cache]\ndir = %s\n" % ((cache_dir or "") if not cmdcache else "")
+        if cache_dir and cmdcache:
+            # the command cache alone, with store / retrieve commands of the documented atomic form
+            os.makedirs(cache_dir, exist_ok=True)
+            cfg += ("storecommand = cat > %s/$CACHE_KEY.tmp && mv %s/$CACHE_KEY.tmp %s/$CACHE_KEY\nretrievecommand = cat %s/$CACHE_KEY\n"
+                    % (cache_dir, cache_dir, cache_dir, cache_dir))
+        elif cache_dir and compress:
             cfg += "dircompress = true\n"
         cfg += config_extra
         with open(os.path.join(root, ".plzconfig"), "w") as f:
